@@ -245,6 +245,18 @@ Section Log.
     | _ => (st, fail (fe_status (env_ok false) ReqGetSTH bkr))
     end.
 
+  (* the same request when its cache lookup MISSED and the signer then returned an ERROR (an
+     unreachable remote signer / HSM): GetSTH's `err != nil` arm answers; signV1TreeHead writes to
+     the cache only after the signer has returned a signature, so the state is the one before the
+     request.  That the lookup missed is an observation (the signer was called), not computed
+     from [cache st]: with overlapping requests the lookup may precede the SetSignature of a
+     request that comes earlier in the order of the backend RPCs.  Not an [op]: the histories of
+     the theorems assume a working signer ([standing]); this is the model of the one request for
+     which the harness makes the signer fail (LogCase.CGetSTHSignFail). *)
+  Definition fe_get_sth_signer_fails (st : state) : state * answer :=
+    let b := be st in
+    (st, fail (fe_status (env_ok false) ReqGetSTH (bk (Reply (root_cls b)) unused unused unused unused))).
+
   Definition fe_consistency (st : state) (pf ps : bytes) : answer :=
     let b := be st in
     let rp := match parse_int64 pf, parse_int64 ps with
